@@ -513,7 +513,10 @@ def run(scn, full_log=False):
                                               f"{rec['callbacks']} times")
                 rec["done"] = loop.time()
                 err = getattr(response, "error", None)
-                if response.code == 599 and err is not None and "in request queue" in str(err):
+                # (a follow-up's queue timeout is handed down the redirect chain: it is the
+                # timeout of *this* hop only if this hop never started)
+                if response.code == 599 and err is not None and rec["started"] is None \
+                        and "in request queue" in str(err):
                     rec["queue_timeout"] = True
                     # starvation: fewer than max_clients earlier submissions still incomplete
                     busy = 0
